@@ -3,10 +3,14 @@ EXTENDS System
 InputsDef == { <<"ok","CVSS:3.0/","AV:N/...">>, <<"ok","CVSS:3.1/","AV:N/...">>, <<"bad","","x">> }
 SmallAccessors == {"scores","clean","json_sm","mutate_json"}
 \* the bounded model calls a representative subset of accessors (the replay uses all of them)
-MCNext == \/ \E t \in Threads, i \in Inputs : Begin(t, i)
-          \/ \E kind \in EntryPoints : EntryPoint(kind)
-          \/ \E o \in 1..MaxObjs : Copy(o)
-          \/ \E t \in Threads : StepParse(t) \/ StepMandatory(t) \/ StepFill(t) \/ \E k \in 4..6 : StepScore(t, k)
-          \/ \E o \in 1..MaxObjs, acc \in SmallAccessors : Call(o, acc)
+MCOldNext == \/ \E t \in Threads, i \in Inputs : Begin(t, i)
+             \/ \E kind \in EntryPoints : EntryPoint(kind)
+             \/ \E o \in 1..MaxObjs : Copy(o)
+             \/ \E t \in Threads : StepParse(t) \/ StepMandatory(t) \/ StepFill(t) \/ \E k \in 4..6 : StepScore(t, k)
+             \/ \E o \in 1..MaxObjs, acc \in SmallAccessors : Call(o, acc)
+MCNewNext == \/ \E t \in Threads, o \in 1..MaxObjs, acc \in {"clean", "json_sm"} : CallBegin(t, o, acc)
+             \/ \E t \in Threads : CallEnd(t) \/ Abort(t)
+             \/ \E i \in Inputs : LowPrecConstruct(i)
+MCNext == (MCOldNext /\ UNCHANGED xvars) \/ MCNewNext
 MCSpec == Init /\ [][MCNext]_vars
 =============================================================================
